@@ -158,18 +158,27 @@ def rand_item(rng, names, n, labels):
     """`names`: variable names believed to exist (may be stale: unknown names are part of the alphabet)."""
     known = list(names) or ['A']
     def nm():
-        return rng.choice(known) if rng.random() < 0.85 else rng.choice(NEW_NAMES + ['Zz'])
+        r0 = rng.random()
+        return (rng.choice(known) if r0 < 0.8 else rng.choice(NEW_NAMES + ['Zz']) if r0 < 0.92
+                else rng.choice(cc.INTERNAL_NAMES))
     r = rng.random()
     if r < 0.14:
-        name = rng.choice(NEW_NAMES) if rng.random() < 0.8 else rng.choice(known)
+        r0 = rng.random()
+        name = (rng.choice(NEW_NAMES) if r0 < 0.78 else rng.choice(known) if r0 < 0.96
+                else rng.choice(cc.INTERNAL_NAMES))
         kind = rng.choice(KINDS + [None, None])
         return {'op': 'addVariable', 'name': name, 'v': enc_operand(rand_operand(rng, n, rng.choice(KINDS + [None]))),
                 'dtype': kind}
     if r < 0.18:
-        return {'op': 'addAttribute', 'name': rng.choice(ATTR_NAMES + known[:1] + CLASS_MEMBERS[:4])}
+        return {'op': 'addAttribute', 'name': rng.choice(ATTR_NAMES + known[:1] + CLASS_MEMBERS[:4] +
+                                                         ['attributes', 'span', 'index', '_attributes', '_strict'])}
     if r < 0.38:
         r2 = rng.random()
         name = nm() if r2 < 0.7 else rng.choice(ATTR_NAMES) if r2 < 0.85 else rng.choice(CLASS_MEMBERS)
+        if name in cc.INTERNAL_NAMES:
+            # `obj.span = …`, `obj.index = …`, `obj._attributes = …`, `obj._strict = …` REPLACE the container's own state
+            # (they are existing attributes) — not part of the alphabet; `obj.strict = …` is the op `setStrict`
+            name = 'attributes'
         return {'op': 'setAttr', 'name': name, 'v': enc_operand(rand_operand(rng, n))}
     if r < 0.48:
         return {'op': 'setItem', 'name': nm(), 'v': enc_operand(rand_operand(rng, n))}
@@ -188,7 +197,7 @@ def rand_item(rng, names, n, labels):
         return {'op': 'setLabelSlice', 'name': nm(), 'a': a, 'b': b, 'step': rng.choice([None, None, 1, 2, 3]),
                 'v': enc_operand(rand_operand(rng, rng.choice([1, 2, n])))}
     if r < 0.86:
-        pool = list(dict.fromkeys(known + ['Zz']))      # keyword arguments: keys are unique
+        pool = list(dict.fromkeys(known + ['Zz'] + rng.sample(cc.INTERNAL_NAMES, 2)))   # kwargs: keys are unique
         ks = rng.sample(pool, k=min(len(pool), rng.choice([1, 2, 2, 3])))
         return {'op': 'replaceValues', 'kvs': [[k, enc_operand(rand_operand(rng, n))] for k in ks]}
     if r < 0.94:
@@ -266,6 +275,9 @@ def core_alphabet():
         {'op': 'setPosSlice', 'name': 'B', 'a': 1, 'b': None, 'step': None, 'v': E([8, 9])},
         {'op': 'setLabel', 'name': 'A', 'label': L(2001), 'v': E(True)},
         {'op': 'setLabel', 'name': 'A', 'label': L(1999), 'v': E(1)},
+        {'op': 'setLabel', 'name': 'attributes', 'label': L(2000), 'v': E(1)},
+        {'op': 'setLabelSlice', 'name': 'strict', 'a': L(2000), 'b': L(2001), 'step': None, 'v': E(9)},
+        {'op': 'addVariable', 'name': 'index', 'v': E(1.0), 'dtype': None},
         {'op': 'setLabelSlice', 'name': 'A', 'a': L(2000), 'b': L(2001), 'step': None, 'v': E([7, 8])},
         {'op': 'setLabelSlice', 'name': 'B', 'a': L(2000), 'b': None, 'step': 2, 'v': E(2.5)},
         {'op': 'setLabelSlice', 'name': 'B', 'a': L(2000), 'b': None, 'step': None, 'v': E([1, 2])},
@@ -345,6 +357,7 @@ class Oracle:
         self.prev_keys = None
         self.n_ok = self.n_raised = 0
         self.extra_size = 0
+        self.prev_internal = None
 
     def violate_obs(self, key, what):
         self.violate(key, what, getattr(self, 'k', -1))
@@ -374,6 +387,12 @@ class Oracle:
         if self.broken:
             return
         op = item['op'] if item else None
+        if op == 'addVariable' and item['name'] in cc.CLOBBERING_VARIABLE_NAMES and out == 'ok':
+            self.broken = True
+            self.violate('add-variable-internal-name',
+                         f"add_variable({item['name']!r}, ...) succeeded and replaced the container's own "
+                         f"__dict__['_{item['name']}'] ({type(obj.__dict__.get('_' + item['name'])).__name__} now)", k)
+            return
         # 1. every series: one-dimensional, one element per period, dtype as created
         for name in obj.index:
             a = np.asarray(obj[name])
@@ -415,12 +434,26 @@ class Oracle:
         if item is None:
             self.prev_attrs, self.prev_strict = list(obj._attributes), bool(obj.strict)
             self.prev_keys = set(obj.__dict__)
+            self.prev_internal = cc.internal_state(obj)
             return
-        # 3. an assignment that cannot fit raises and leaves every series unchanged
+        # 3. an assignment that cannot fit raises and leaves every series — and the container's own bookkeeping — unchanged
         why = misfit(item, n, before)
+        internal = cc.internal_state(obj)
+        # a (name, label) / (name, slice) assignment whose name is not a variable but happens to be one of the
+        # container's own `__dict__` entries (without the underscore)
+        internal_name = (op in ('setLabel', 'setLabelSlice') and item['name'] not in before
+                         and '_' + item['name'] in self.prev_internal['keys'])
+        if why is not None and out != 'ok' and internal != self.prev_internal:
+            self.violate('tuple-set-internal-name' if internal_name else f'failed-assign-changed-state:{op}',
+                         f'{op} {item.get("name")!r} raised {out} ({why}) but the container\'s own state changed: ' +
+                         ', '.join(f'{x}: {self.prev_internal[x]} -> {internal[x]}' for x in internal
+                                   if internal[x] != self.prev_internal[x]), k)
         if why is not None:
             if out == 'ok':
                 key = f'accepted-misfit:{why}:{op}'
+                if internal_name:
+                    key = 'tuple-set-internal-name'
+
                 if (op in ('setPos', 'setLabel') and why == 'wrong-size'
                         and before[item['name']].dtype.kind == 'b'):
                     key = 'bool-element-accepts-sequence'    # NumPy stores bool(list) / bool(ndarray)
@@ -458,6 +491,7 @@ class Oracle:
             if op == 'setValues' and scalar_kind(item['v']) in NUMERIC and out in ('AttributeError', 'NotImplementedError'):
                 self.violate('strict-blocks-values-setter', f'strict=True: obj.values = <scalar> raised {out}', k)
         self.prev_attrs, self.prev_strict, self.prev_keys = attrs, bool(obj.strict), set(obj.__dict__)
+        self.prev_internal = internal
 
 
 def check_cases(ctx, rep, cases, label):
